@@ -513,6 +513,49 @@ fn run_wf(args: &[String]) {
             }
         }
     }
+    // notification messages (fusedev only)
+    for i in 0..(8 * k.max(1)) {
+        use fuse_backend_rs::transport::FuseDevWriter;
+        let mut buf = vec![0u8; 8192];
+        let kind = ["inval_entry", "inval_inode", "resend"][i % 3];
+        let (parent, name) = (boundary(&mut rng, 8), rname(&mut rng, 3000));
+        let (ino, off, len) = (boundary(&mut rng, 8), boundary(&mut rng, 8), boundary(&mut rng, 8));
+        let res = {
+            let w = FuseDevWriter::<()>::new(pair.tx, &mut buf).unwrap();
+            match kind {
+                "inval_entry" => server.notify_inval_entry(w, parent, &std::ffi::CString::new(name.clone()).unwrap()).map(|_| ()),
+                "inval_inode" => server.notify_inval_inode(w, ino, off, len).map(|_| ()),
+                _ => server.notify_resend(w),
+            }
+        };
+        let msgs = pair.drain();
+        let mut body = Map::new();
+        let mut hdr = json!({"len": 0, "code": 0, "unique": "0"});
+        let mut tail = pay(&[]);
+        let mut taillen = 0usize;
+        if let Some(m) = msgs.first() {
+            if m.len() >= 16 {
+                hdr = json!({"len": u32le(m, 0), "code": u32le(m, 4) as i32, "unique": u64le(m, 8).to_string()});
+                let st = match kind {
+                    "inval_entry" => "fuse_notify_inval_entry_out",
+                    "inval_inode" => "fuse_notify_inval_inode_out",
+                    _ => "",
+                };
+                let mut pos = 16;
+                if !st.is_empty() && m.len() >= 16 + abi.size(st) {
+                    abi.decode(st, &m[16..16 + abi.size(st)], "", &mut body);
+                    pos += abi.size(st);
+                }
+                tail = pay(&m[pos..]);
+                taillen = m.len() - pos;
+            }
+        }
+        let mut nn = name.clone();
+        nn.push(0);
+        tr.emit(&json!({"e": "Notify", "kind": kind, "ok": res.is_ok(), "nmsgs": msgs.len(), "msglen": msgs.first().map(|m| m.len()).unwrap_or(0),
+            "args": {"parent": parent.to_string(), "namelen": name.len(), "name_nul": pay(&nn), "ino": ino.to_string(), "off": off.to_string(), "len": len.to_string()},
+            "hdr": hdr, "body": body, "tail": tail, "taillen": taillen}));
+    }
     tr.emit(&json!({"e": "End", "n": tr.n}));
     tr.flush();
 }
